@@ -12,9 +12,10 @@ condition variable.  Control changes hands only at *yield points*:
 
 Yield points are numbered 0,1,2,... in the order they are reached (a global counter; the order is a
 deterministic function of the scripts and of the pre-emption list because only one actor runs at a time).
-A schedule is the list `preempts = [[position, actor], ...]`: when yield point number `position` is reached
-and `actor` is ready and is not the running actor, control is handed to it.  Everywhere else the running
-actor continues; when it finishes or blocks, the ready actor with the lowest index continues.
+A schedule is the list `preempts = [[position, k], ...]`: when yield point number `position` is reached,
+control is handed to the k-th (0-based, by actor index) READY actor other than the running one; if there are
+not that many, nothing happens.  Everywhere else the running actor continues; when it finishes or blocks,
+the ready actor with the lowest index continues.
 
 Deadlock (nobody ready, somebody blocked) is detected structurally and reported; no timeout decides
 anything (the only timeout is a last-resort guard against a bug in this harness, reported as a harness error).
@@ -166,9 +167,13 @@ class Scheduler(object):
         self.count = pos + 1
         if traced:
             self.traced_points += 1
-        target = self.preempts.get(pos)
-        if target is None or target == me or not (0 <= target < self.n) or self.state[target] != READY:
+        k = self.preempts.get(pos)
+        if k is None:
             return
+        others = [i for i in range(self.n) if i != me and self.state[i] == READY]
+        if not (0 <= k < len(others)):
+            return
+        target = others[k]
         self.switches.append([pos, me, target, where])
         if traced:
             self.traced_switches += 1
